@@ -53,7 +53,7 @@ from vlib.compare import Err, exc_kind
 from props import C09 as _c09
 
 ID = 'C10'
-PYOBJECT_METHODS = ['pardim', '__len__', 'start', 'end', 'start_dir', 'end_dir', 'bounding_box', 'insert_knot', 'reverse', 'swap', 'reparam', 'reparam_dir', 'set_dimension', 'force_rational', 'translate', 'scale', 'project']   # splineobject.py methods re-translated and proved equal to the hand model each run
+PYOBJECT_METHODS = ['pardim', '__len__', 'start', 'end', 'start_dir', 'end_dir', 'bounding_box', 'insert_knot', 'reverse', 'swap', 'reparam', 'reparam_dir', 'set_dimension', 'force_rational', 'translate', 'scale', 'project', 'lower_periodic', 'make_periodic', 'make_periodic_c', 'split', 'raise_order', 'raise_order_dir', 'raise_order_implicit', 'set_order', 'lower_order', 'scale_p', 'rotate', 'mirror', '__iadd__', '__isub__', '__imul__', '__itruediv__']   # splineobject.py methods re-translated and proved equal to the hand model each run
 PYBASIS_METHODS = ['__init__', 'init_default']   # basis.py methods re-translated and proved equal to the hand model each run
 RTOL = 1e-9
 ATOL = 1e-11
